@@ -290,11 +290,36 @@ fn op_iter(cx: &mut SCtx, s: usize) {
     let toks = format!("iter {} 0 0", s);
     let out = run(cx, toks.clone(), "iter", &[s], Some(s), |cx| {
         let m = cx.sets[s].as_ref().unwrap();
-        let it = m.iter();
-        let n = it.len();
-        let l: Vec<(u64, u64, u64)> = it.map(|k| (k.class, k.id, 0)).collect();
-        if l.len() != n {
-            vio("C13", format!("iter().len() said {} but {} elements came", n, l.len()));
+        let n = m.len();
+        // IntoIterator for &HashSet is iter(); exact length at every step, None for good, clones
+        let mut it = if n % 2 == 0 { m.iter() } else { m.into_iter() };
+        let mut l: Vec<(u64, u64, u64)> = Vec::new();
+        let mut i = 0usize;
+        loop {
+            if it.len() != n - i.min(n) || it.size_hint() != (n - i.min(n), Some(n - i.min(n))) {
+                vio("C08", format!("HashSet::iter(): len() {} / size_hint {:?} after {} of {} elements", it.len(), it.size_hint(), i, n));
+                vio("C13", format!("HashSet::iter(): len() {} after {} of {} elements", it.len(), i, n));
+            }
+            if i == n / 2 {
+                let a: Vec<u64> = it.clone().map(|k| k.class).collect();
+                let b: Vec<u64> = it.clone().map(|k| k.class).collect();
+                if a != b || a.len() != n - i {
+                    vio("C08", format!("a cloned HashSet::iter() yields {} / {} elements where {} are left", a.len(), b.len(), n - i));
+                }
+            }
+            match it.next() {
+                Some(k) => {
+                    l.push((k.class, k.id, 0));
+                    i += 1;
+                }
+                None => break,
+            }
+            if i > n + 2 {
+                break;
+            }
+        }
+        if it.next().is_some() || it.next().is_some() {
+            vio("C08", "HashSet::iter() yielded an element after None".into());
         }
         Out::L(l)
     });
@@ -332,12 +357,21 @@ fn op_drain(cx: &mut SCtx, s: usize, j: u64) {
     let toks = format!("drain {} {} 0", s, j);
     let out = run(cx, toks.clone(), "drain", &[s], Some(s), move |cx| {
         let m = cx.sets[s].as_mut().unwrap();
+        let n = m.len();
         let mut it = m.drain();
         let mut l = Vec::new();
-        for _ in 0..j {
+        for i in 0..j as usize {
+            if it.len() != n - i.min(n) || it.size_hint() != (n - i.min(n), Some(n - i.min(n))) {
+                vio("C08", format!("HashSet::drain(): len() {} / size_hint {:?} after {} of {} elements", it.len(), it.size_hint(), i, n));
+            }
             match it.next() {
                 Some(k) => l.push((k.class, k.id, 0)),
-                None => break,
+                None => {
+                    if it.next().is_some() {
+                        vio("C08", "HashSet::drain() yielded an element after None".into());
+                    }
+                    break;
+                }
             }
         }
         drop(it);
@@ -392,11 +426,27 @@ fn op_alg(cx: &mut SCtx, kind: u64, a: usize, b: usize, par: Option<usize>) {
             return Out::L(v);
         }
         let _ = par;
+        // the lazy iterators: size_hint must bracket what comes, a clone must yield the same
+        macro_rules! lazy {
+            ($it:expr, $name:expr) => {{
+                let it = $it;
+                let (lo, hi) = it.size_hint();
+                let c = sorted_kids(it.clone());
+                let v = sorted_kids(it);
+                if lo > v.len() || hi.map_or(false, |h| h < v.len()) {
+                    vio("C13", format!("{}: size_hint ({}, {:?}) but {} elements came", $name, lo, hi, v.len()));
+                }
+                if c != v {
+                    vio("C13", format!("{}: a clone of the iterator yields {} elements, the iterator {}", $name, c.len(), v.len()));
+                }
+                v
+            }};
+        }
         let l = match kind {
-            0 => sorted_kids(sa.difference(sb)),
-            1 => sorted_kids(sa.symmetric_difference(sb)),
-            2 => sorted_kids(sa.intersection(sb)),
-            3 => sorted_kids(sa.union(sb)),
+            0 => lazy!(sa.difference(sb), "difference"),
+            1 => lazy!(sa.symmetric_difference(sb), "symmetric_difference"),
+            2 => lazy!(sa.intersection(sb), "intersection"),
+            3 => lazy!(sa.union(sb), "union"),
             _ => {
                 let r: Set = match kind {
                     4 => sa - sb,
